@@ -35,6 +35,10 @@ type Config struct {
 	// TaskStallPer1k: per thousand schedule points, the chance that the task reaching it is
 	// descheduled for 9-360 ms of simulated time while the others go on.
 	TaskStallPer1k int
+	// ClockTickPer1k: per thousand readings of the clock by the code under test (time.Now, Since,
+	// Until), the chance that a few nanoseconds pass first - two readings in a row need not agree,
+	// as on a real machine. 0: the clock stands still while a task runs.
+	ClockTickPer1k int
 	Horizon    time.Duration
 	GOMAXPROCS int
 	Trace      bool
@@ -105,6 +109,7 @@ type Outcome struct {
 	Stalls      int
 	TaskStalls  int
 	LateTimers  int
+	ClockTicks  int
 	Trace       []TraceEntry
 	Tasks       int
 	SwitchPairs map[string]struct{}
@@ -780,6 +785,20 @@ func TrackTimer(tm *time.Timer) {
 	s.mu.Lock()
 	s.timers = append(s.timers, tm)
 	s.mu.Unlock()
+}
+
+// ClockTick is called by the time stand-in before it reads the clock for the code under test: in
+// runs that have the fault enabled, a few nanoseconds of simulated time may pass first (a schedule
+// point as well, since simulated time only passes while nobody runs).
+func ClockTick() {
+	s := cur
+	if s == nil || s.cfg.ClockTickPer1k <= 0 || s.tearing || s.current == nil {
+		return
+	}
+	if s.tape.Choose(1000, "clock-tick?") >= 1000-s.cfg.ClockTickPer1k {
+		s.out.ClockTicks++
+		Sleep(time.Duration(1+s.tape.Choose(3, "clock-tick-ns")), "clock-tick")
+	}
 }
 
 // Lateness returns a non-negative extra delay for a timer (Go only promises "at least d").
